@@ -237,7 +237,7 @@ class Gen:
         for a in it.attrs:
             m = re.match(r'#\[derive\((.*)\)\]$', a, re.S)
             if m:
-                keep += [d.strip() for d in m.group(1).split(',') if d.strip() in ('Clone', 'Copy', 'PartialEq', 'Eq', 'Hash')]
+                keep += [d.strip() for d in m.group(1).split(',') if d.strip() in ('Clone', 'Copy', 'PartialEq', 'Eq', 'Hash') or (d.strip() == 'Default' and 'keepdefault' in opts)]
         if 'noderive' in opts:
             keep = []
         if keep and kw in ('struct', 'enum') and not any(a.startswith('attr=') for a in opts):
@@ -337,6 +337,22 @@ class Gen:
                 if not braced:
                     inserts.append((src.toks[b_hi].end, ' }'))
                 continue
+            if needle == '@span':
+                replacements.append(txt)
+                continue
+            if needle == '@replace':
+                # R10: a declared text substitution (the n-th occurrence of OLD, whitespace-insensitive, becomes NEW);
+                # used for iterator-adapter expressions that are replaced by a call to their summary function
+                old, new = txt
+                base = src.toks[lo_tok].start
+                body = src.text[base:src.toks[hi_tok].end]
+                pat = re.compile(r'\s*'.join(re.escape(t) for t in re.findall(r'\w+|[^\w\s]', old)))
+                ms = list(pat.finditer(body))
+                if n >= len(ms):
+                    raise LostAnchor('replace: %r not found' % old)
+                replacements.append((base + ms[n].start(), base + ms[n].end(), new))
+                self.drops.add('R10: `%s` ==> `%s`' % (old, new))
+                continue
             if needle == '@loopstub':
                 # R4c: in the enclosing function the n-th loop is replaced by a call to its summary function, whose
                 # contract is the fold of the (separately verified) body contract over the items (A-iter)
@@ -414,6 +430,10 @@ class Gen:
                 entry = [int(m.group(1)), m.group(2).strip(), m.group(3).strip(), []]
                 self_closures.append(entry)
                 cur = entry[3]
+            elif s.startswith('//@replace'):
+                m = re.match(r'//@replace\s+(\d+)\s+(.*?)\s+==>\s+(.*)$', s)
+                self_closures.append(['replace', int(m.group(1)), m.group(2), m.group(3)])
+                cur = []
             elif s.startswith('//@loopstub'):
                 m = re.match(r'//@loopstub\s+(\d+)\s+(.*)$', s)
                 self_closures.append(['loopstub', int(m.group(1)), m.group(2)])
@@ -431,6 +451,9 @@ class Gen:
         for ent in self_closures:
             if ent[0] == 'loopstub':
                 pr.append((ent[1], '@loopstub', ent[2]))
+                continue
+            if ent[0] == 'replace':
+                pr.append((ent[1], '@replace', (ent[2], ent[3])))
                 continue
             (n, params, ret, v) = ent
             pr.append((n, '@closure', (params, ret, '\n'.join(v))))
@@ -645,6 +668,10 @@ class Gen:
                 self.emit('#[%s]' % a, 'spec', specfile, specline, False)
             head, rest = self.named_sig(src, f, 'r')
             head = self.clean(head)
+            # R5e: a reference-pattern parameter `&x: &T` is desugared to `x_ref: &T` + `let x = *x_ref;`
+            pats = re.findall(r'&(\w+)\s*:\s*&', head)
+            for pn in pats:
+                head = re.sub(r'&%s\s*:\s*&' % pn, '%s_ref: &' % pn, head)
             if not in_trait:
                 head = 'pub ' + head
             self.emit(head, 'code', rel, f.line)
@@ -654,7 +681,11 @@ class Gen:
             if contract.strip():
                 self.emit(contract, 'spec', specfile, specline, False)
             c_hi = len(self.out)
+            if pats:
+                self.emit('{ ' + ' '.join('let %s = *%s_ref;' % (pn, pn) for pn in pats), 'spec', specfile, specline, False)
             self.emit_segs(self.body_with_insertions(src, f.body_open, f.end, {}, [], rel), rel)
+            if pats:
+                self.emit('}', 'spec', specfile, specline, False)
             self.end_block(c_lo, c_hi, twin_ok=False)
 
     def variant_of_hook(self, method):
@@ -900,6 +931,12 @@ class Gen:
             self.emit('{', 'spec', specfile, specline, False)
             for u in uses:
                 self.emit(self.clean(u), 'code', rel, it.line, False)
+        # R4: a `continue` of THIS loop (not of a nested loop / closure) ends the body function: `return [suffix]`
+        inner = [(l[0], src.match[l[3]]) for l in find_loops(src, bopen + 1, src.match[bopen])]
+        for k in range(bopen + 1, src.match[bopen]):
+            if src.is_id(k, 'continue') and src.is_p(k + 1, ';') and not any(a < k < b for a, b in inner):
+                proofs = list(proofs) + [(0, '@span', (src.toks[k].start, src.toks[k].end, ('return ' + suffix).strip()))]
+                self.drops.add('R4: `continue` of a sliced loop body becomes `return`')
         segs = self.body_with_insertions(src, bopen, src.match[bopen], lins, proofs, rel)
         self.emit_segs(segs, rel)
         if suffix or uses:
